@@ -7,6 +7,7 @@ package c02
 import (
 	"context"
 	"encoding/binary"
+	"encoding/hex"
 	"fmt"
 	"os"
 	"runtime"
@@ -235,6 +236,12 @@ func (r *run) bookmark(p int, variant string) state.Bookmark {
 		b[3] ^= 0x40
 	case "empty":
 		return state.Bookmark{}
+	case "foreign": // cookie of another process incarnation, valid position
+		if f, err := hex.DecodeString(os.Getenv("VERIF_FOREIGN_BM")); err == nil && len(f) == 16 {
+			copy(b[:8], f[:8])
+		} else {
+			b[0] ^= 0x01
+		}
 	}
 
 	return b
@@ -414,7 +421,7 @@ func runBehaviour(t *testing.T, tr *vh.Trace, tid string, g Group, beh []Cmd, co
 			}
 
 			// garbage and out-of-range bookmarks
-			for _, v := range []string{"short", "long", "badcookie", "empty"} {
+			for _, v := range []string{"short", "long", "badcookie", "empty", "foreign"} {
 				r.start(0, "one", 1, false, "bookmark", 0, r.wpos-1, v)
 				r.start(0, "all", 0, false, "bookmark", 0, r.wpos-1, v)
 			}
@@ -465,6 +472,11 @@ func processCookie(t *testing.T) []byte {
 	}
 
 	return append([]byte{}, ev.Bookmark[:8]...)
+}
+
+// TestMint prints the bookmark cookie of this process (run as a child: another incarnation).
+func TestMint(t *testing.T) {
+	fmt.Printf("MINT %s\n", hex.EncodeToString(append(processCookie(t), 0, 0, 0, 0, 0, 0, 0, 0)))
 }
 
 // TestWatch: VERIF_IN = JSON list of groups; output VERIF_OUT.<i>.ndjson per group.
